@@ -173,10 +173,12 @@ func (o *Array) BinaryOp(op token.Token, rhs Object) (Object, error) {
 	if rhs, ok := rhs.(*Array); ok {
 		switch op {
 		case token.Add:
-			if len(rhs.Value) == 0 {
-				return o, nil
-			}
-			return &Array{Value: append(o.Value, rhs.Value...)}, nil
+			// always build a new backing array: append(o.Value, ...) could
+			// write into spare capacity shared with o or with slices of it
+			arr := make([]Object, 0, len(o.Value)+len(rhs.Value))
+			arr = append(arr, o.Value...)
+			arr = append(arr, rhs.Value...)
+			return &Array{Value: arr}, nil
 		}
 	}
 	return nil, ErrInvalidOperator
@@ -399,7 +401,11 @@ func (o *Bytes) BinaryOp(op token.Token, rhs Object) (Object, error) {
 			if len(o.Value)+len(rhs.Value) > MaxBytesLen {
 				return nil, ErrBytesLimit
 			}
-			return &Bytes{Value: append(o.Value, rhs.Value...)}, nil
+			// new backing array, see Array.BinaryOp
+			b := make([]byte, 0, len(o.Value)+len(rhs.Value))
+			b = append(b, o.Value...)
+			b = append(b, rhs.Value...)
+			return &Bytes{Value: b}, nil
 		}
 	}
 	return nil, ErrInvalidOperator
@@ -834,7 +840,11 @@ func (o *ImmutableArray) BinaryOp(op token.Token, rhs Object) (Object, error) {
 	if rhs, ok := rhs.(*ImmutableArray); ok {
 		switch op {
 		case token.Add:
-			return &Array{Value: append(o.Value, rhs.Value...)}, nil
+			// new backing array, see Array.BinaryOp
+			arr := make([]Object, 0, len(o.Value)+len(rhs.Value))
+			arr = append(arr, o.Value...)
+			arr = append(arr, rhs.Value...)
+			return &Array{Value: arr}, nil
 		}
 	}
 	return nil, ErrInvalidOperator
